@@ -42,7 +42,7 @@ MANIFEST = {
             "10^x / log10), harness/c13_bse.cc; lmplz as producer of the inputs. Hypotheses of the theorems (prefix/suffix "
             "closure, no n-gram predicting <s>, p(<s>)=1, <unk> only as a unigram with zero back-off, words of n-grams have "
             "unigrams, finite values) are decidable and checked on every generated model. Tolerance 1e-5 absolute on log10 values "
-            "(observed max 5.7e-7). Known findings: abort for unequal orders (unequal-orders-ngram-without-backoff-record); "
+            "(observed max 8.2e-7). Known findings: abort for unequal orders (unequal-orders-ngram-without-backoff-record); "
             "uint64 shift by 64 in BoundedSequenceEncoding (bse-zero-width-field-shift-64, repair in repo_patches/).",
     "technique": "Lean 4 proof (induction / refinement over an executable model, abstract exponential + real instantiation) + "
                  "differential correspondence of bin/interpolate and the real encoding header with the compiled Lean driver and "
